@@ -302,6 +302,7 @@ class Walker:
                 if p.loopstack:
                     val._iter_of = p.loopstack[-1]
                     val._iter_src = p.loopsrc[-1]
+                    val._iter_epoch = {k: p.epoch.get(k, 0) for k in p.loopstack[-1]}  # which binding of the loop names this entry belongs to
                 p.env[target.value.id] = ast.Dict(keys=list(cur.keys) + [subst(target.slice, p.env)], values=list(cur.values) + [val])
                 for other in p.alias.get(target.value.id, ()):
                     p.env[other] = p.env[target.value.id]
@@ -509,6 +510,7 @@ class Walker:
             elt = self.comps(p, subst(call.args[0], p.env))
             elt._iter_of = p.loopstack[-1] if p.loopstack else ()  # the loop whose iterations produce this element
             elt._iter_src = p.loopsrc[-1] if p.loopsrc else None
+            elt._iter_epoch = {k: p.epoch.get(k, 0) for k in elt._iter_of}
             p.env[name] = ast.List(elts=list(cur.elts) + [elt], ctx=ast.Load())
         elif meth == "extend" and len(call.args) == 1:
             arg = subst(call.args[0], p.env)
